@@ -90,7 +90,7 @@ TARGETS["augment"] = dict(file="flowpaths/abstractsourcesinkgraph.py", cls="Abst
 
 _EV = Dict(Tuple(NODE, NODE, INT), INT)
 TARGETS["solpaths"] = dict(file="flowpaths/abstractpathmodeldag.py", cls="AbstractPathModelDAG", func="get_solution_paths",
-                           params=[SELFOBJ], defaults=[], ret=Opt(List(List(NODE))),
+                           params=[SELFOBJ], defaults=[], ret=List(List(NODE)),
                            selfobj=dict(inputs=[("external_solution_paths", Opt(List(List(NODE)))), ("edge_vars_sol", _EV), ("G", SGRAPH), ("k", INT)],
                                         outputs=[("edge_vars_sol", _EV)],          # read and (re)assigned: initialised from the input
                                         # a call whose result is an input of the model: the rounded 0/1 values the solver wrapper returns
